@@ -177,8 +177,15 @@ def _post_apply(snap, a, k, res, exc):
         after_root = S.root_of(result)
         after = S.shadow(after_root)
     except RecursionError:
-        rec.violation("C07", f"structure/{arm}/cyclic", "rewritten tree is cyclic",
-                      witness_of(snap, {"summary": f"{label} on '{snap['text']}' produced a cyclic tree"}))
+        w = witness_of(snap, {"summary": f"{label} on node {snap['index']} of '{snap['text']}' produced a cyclic tree"})
+        rec.violation("C07", f"structure/{arm}/cyclic", "rewritten tree is cyclic", w)
+        # a cyclic result has no value, no solution set and no text form either
+        if "value" in CHECKS and snap["before"][0] != "Equal":
+            rec.violation("C01", f"value/{arm}/cyclic-result", "the rewritten tree is cyclic: it denotes no expression at all", w)
+        if "equation" in CHECKS and snap["before"][0] == "Equal":
+            rec.violation("C02", f"equation/{arm}/cyclic-result", "the rewritten equation is cyclic: it denotes no equation at all", w)
+        if "print" in CHECKS:
+            rec.violation("C04", f"print/cyclic-result/{label}", "the rewritten tree is cyclic and cannot be printed", w)
         return
     snap["after"] = after
     snap["after_root"] = after_root
